@@ -67,6 +67,9 @@ category Mine { asset Xx extends Hh { | go +> hs.go } }
 HELPER = '''category Help { asset Hh { | go } }
 associations { Hh [hs] * <-- Hl --> * [hs2] Hh }
 '''
+ROOT = '#id: "org.root" #version: "1.0.0"\ninclude "mut.mal"\ncategory Rt { asset Rr { | rr } }\n'
+ROOT2 = '#id: "org.root2" #version: "1.0.0"\ninclude "mid.mal"\ncategory Rt2 { asset Rr2 { | rr } }\n'
+MID = 'category Md { asset Mm { | mm } }\ninclude "mut.mal"\n'
 RESERVED = ['abstract', 'asset', 'associations', 'extends', 'include', 'category', 'info', 'let', 'E', 'C', 'I', 'A']
 INSERTS = ['abstract', 'asset', 'associations', 'extends', 'include', 'category', 'info', 'let', '"s"', '7', '0.5',
            'E', 'C', 'zz', '(', ')', '{', '}', '#', ':', '<--', '-->', '[', ']', '*', '=', '-', '/\\', '\\/', '..',
@@ -140,9 +143,13 @@ def evaluate(text, as_include, stats, d):
     if as_include:
         with open(os.path.join(d, 'mut.mal'), 'w', encoding='utf-8') as f:
             f.write(text)
-        with open(os.path.join(d, 'root.mal'), 'w', encoding='utf-8') as f:
-            f.write('#id: "org.root" #version: "1.0.0"\ninclude "mut.mal"\ncategory Rt { asset Rr { | rr } }\n')
-        path = os.path.join(d, 'root.mal')
+        if as_include == 'nested':
+            # root -> mid.mal -> mut.mal ; root.mal and mid.mal are never modified
+            path = os.path.join(d, 'root2.mal')
+        else:
+            with open(os.path.join(d, 'root.mal'), 'w', encoding='utf-8') as f:
+                f.write(ROOT)
+            path = os.path.join(d, 'root.mal')
     else:
         path = os.path.join(d, 'mut.mal')
         with open(path, 'w', encoding='utf-8') as f:
@@ -194,13 +201,14 @@ def _job(job):
         from maltoolbox.language.compiler import MalCompiler
         with open(os.path.join(d, 'helper.mal'), 'w', encoding='utf-8') as f:
             f.write(HELPER)
-        for fn_ in ('mut.mal', 'root.mal'):
+        for fn_, body in (('mut.mal', text), ('root.mal', ROOT), ('root2.mal', ROOT2), ('mid.mal', MID)):
             with open(os.path.join(d, fn_), 'w', encoding='utf-8') as f:
-                f.write(text if fn_ == 'mut.mal' else '#id: "org.root" #version: "1.0.0"\ninclude "mut.mal"\ncategory Rt { asset Rr { | rr } }\n')
+                f.write(body)
         try:
             MalCompiler().compile(os.path.join(d, 'mut.mal'))
             if name != 'inc':
                 MalCompiler().compile(os.path.join(d, 'root.mal'))
+                MalCompiler().compile(os.path.join(d, 'root2.mal'))
             stats['valid_base_compiles'] = stats.get('valid_base_compiles', 0) + 1
         except Exception as e:  # noqa: BLE001
             viols.append(common.Violation(f'valid_program_rejected:{type(e).__name__}', f'base program {name} does not compile: {e}',
@@ -211,7 +219,7 @@ def _job(job):
             how = evaluate(mut, as_include, stats, d)
             if how is not None:
                 viols.append(common.Violation(
-                    f'malformed_source_accepted:{kind}:' + ('included' if as_include else 'root'),
+                    f'malformed_source_accepted:{kind}:' + ({False: 'root', True: 'included', 'nested': 'nested_include'}[as_include]),
                     f'{how} returned normally for a text the grammar rejects',
                     case={'program': name, 'fault': kind, 'where': where, 'as_include': as_include,
                           'text': mut[:600]}).to_json())
@@ -227,15 +235,17 @@ def run(tier, seed):
     res = common.Result(PROP, tier, seed, 'fault_enumeration')
     res.rule = ('every single-token fault (delete each token, truncate after each token, swap each adjacent pair, insert one '
                 'representative of every token type at every position, replace every identifier by every reserved word) of 6 '
-                'programs that together use every grammar rule, compiled as the root file and as a file included by a valid '
-                'root; thorough: every pair (delete|swap) x (delete|swap|truncate) on the smallest program. A mutant counts '
+                'programs that together use every grammar rule, compiled as the root file, as a file included by a valid '
+                'root and (two programs) as a file included by an unmodified file that the root includes; thorough: every pair (delete|swap) x (delete|swap|truncate) on the smallest program. A mutant counts '
                 '(non-trivial) iff the repository\'s own ANTLR lexer+parser report >= 1 error on it; then compile() and '
                 'LanguageGraph.from_mal_spec() must raise')
     jobs = []
     for name, text in PROGRAMS.items():
         n = len(list(single_faults(tokens_of(text), -999))) + 200
-        for as_inc in (False, True):
+        for as_inc in (False, True, 'nested'):
             if name == 'inc' and as_inc:
+                continue
+            if as_inc == 'nested' and name not in ('tiny', 'assocs'):
                 continue
             for lo in range(0, n, 400):
                 jobs.append((name, as_inc, lo, lo + 400, False))
